@@ -463,7 +463,8 @@ class AIPDDLConverter:
         params = OrderedDict((v.name, self._variable_type(v)) for v in function.terms)
         f = Fluent(function.name, self._tm.RealType(), **params)
         self._fluents[function.name] = f
-        self._up_problem.add_fluent(f, default_initial_value=self._em.Int(0))
+        # as in the UPPDDLReader (and in PDDL) a numeric fluent without an initial value is undefined
+        self._up_problem.add_fluent(f)
 
     def _convert_fluents(self):
         for pred in self._domain.predicates:
